@@ -198,6 +198,16 @@ def session_wiring(c):
             c.ob(tag + 'clock-still-over-start-end', AND(e.starting_day == start, e.ending_day == end, e.pre_market is False, e.post_market is False,
                                                           s.burn_in_dt == burn), props=['C12', 'C14', 'C08', 'C16'])
             c.ob(tag + 'schedule-still-over-start-end', list(s.rebalance_schedule) == kinds['daily'], props=['C13', 'C14', 'C08'])
+    # membership of a schedule is by DATE: a start after 21:00 and an end before 21:00 change nothing (the clock still emits the closes)
+    start2, end2 = pd.Timestamp('2019-01-02 21:01:00', tz='UTC'), pd.Timestamp('2019-03-29 14:30:00', tz='UTC')
+    for kind, ref in (('daily', lambda: DailyRebalance(start2, end2)), ('weekly', lambda: WeeklyRebalance(start2, end2, 'FRI')),
+                      ('end_of_month', lambda: EndOfMonthRebalance(start2, end2))):
+        want2 = list(ref().rebalances)
+        kw = {'rebalance_weekday': 'FRI'} if kind == 'weekly' else {}
+        r, s = _try(lambda: BacktestTradingSession(start2, end2, uni, alpha, initial_cash=cash, rebalance=kind, long_only=True, fee_model=fm,
+                                                   data_handler=dh, cash_buffer_percentage=buf, **kw))
+        c.ob('odd-times/%s/schedule-is-the-class-schedule-over-start-end' % kind, r == 'ok' and list(s.rebalance_schedule) == want2,
+             props=['C13', 'C14', 'C08'])
     # without a data handler the session builds ONE CSV source over the whole directory (every file, whatever the universe says)
     import qstrader.trading.backtest as bt
     made = []
